@@ -36,6 +36,7 @@ type Opts struct {
 	AllIDs  bool // check Has/Get for every registered ID, not only a sample
 	NoTrans bool // do not compute transcript
 	Track   bool // coverage counters (critical events)
+	KeepEv  bool // keep the recorded events of every op (RecAll)
 }
 
 // Violation is a detected property violation.
@@ -96,6 +97,7 @@ type Sess struct {
 	tr       uint64
 	trOps    []uint64
 	targets  map[ecs.Entity]bool // every non-zero target ever used
+	RecAll   [][]RecEvent
 	Res      *ResModel
 	ResIDs   []ecs.ResID
 	ResKeys  []string
@@ -377,6 +379,9 @@ func (s *Sess) Do(op *Op) *Outcome {
 	s.trace(op.K, out.Ents, out.Count, out.QEnts, out.QCount)
 	if s.recOn {
 		s.checkEvents(op, exp)
+		if s.O.KeepEv {
+			s.RecAll = append(s.RecAll, append([]RecEvent{}, s.rec...))
+		}
 	}
 	s.monitors(op)
 	s.trOps = append(s.trOps, s.tr)
@@ -561,7 +566,7 @@ func (s *Sess) call(op *Op, out *Outcome) {
 	case "RegisterType":
 		n := len(s.IDs)
 		s.registerType(op.Key)
-		if len(s.IDs) > n {
+		if len(s.IDs) > n && op.Key[0] != 'N' && !op.Alt {
 			s.Cfg.Used = append(append([]int{}, s.Cfg.Used...), n)
 		}
 	case "QueryCheck":
